@@ -164,6 +164,30 @@ def _atomic_type(em, base, targs, name):
     return None
 
 
+def _swap(em, node, recv, args):
+    t = em.ctype(args[0]["type"])
+    if t.is_ref:
+        t = t.pointee()
+    em.report["std::swap turned into a three-assignment swap"] += 1
+    return "XC_SWAP(%s, %s, %s)" % (t.text(), em.expr(args[0]), em.expr(args[1]))
+
+
+def _delete(em, n):
+    em.report["delete / delete[] turned into xc_delete (free + ghost counter of destructions)"] += 1
+    return "xc_delete((void *)(%s))" % em.expr(n["inner"][0])
+
+
+def _trait_value(em, n):
+    """std::is_array<T>::value inside a member of a class template specialisation X<T>: evaluated from X's argument"""
+    rec = em.ix.record_of_method(em.cur["decl"])
+    q = em.ix.qual.get(rec["id"], "") if rec is not None else ""
+    if "<" not in q:
+        raise ExtractionError("std:: trait ::value outside a class template specialisation")
+    targ = q[q.index("<") + 1:q.rindex(">")].strip()
+    em.report["std::is_array<T>::value evaluated from the specialisation argument"] += 1
+    return "1" if targ.endswith("[]") or targ.endswith("]") else "0"
+
+
 def default_config():
     cfg = Config()
     for f in ("memset", "memcpy", "memcmp", "strlen", "memchr", "memmove", "strcmp", "strncmp", "abort",
@@ -178,6 +202,13 @@ def default_config():
     cfg.ext["all_of"] = _all_any_of("all_of")
     cfg.ext["any_of"] = _all_any_of("any_of")
     cfg.ext["equal"] = _std_equal
+    cfg.ext["var:value"] = _trait_value
+    cfg.ext["compare"] = "xc_traits_compare"
+    cfg.ext["find"] = "xc_traits_find"
+    cfg.ext["swap"] = _swap
+    cfg.ext["delete"] = _delete
+    for f in ("fmin", "fmax", "fabs", "floor", "ceil", "round", "trunc", "sqrt"):
+        cfg.ext[f] = (lambda fn: (lambda em, node, recv, args: "%s(%s)" % (fn, ", ".join("(double)(%s)" % em.expr(a) for a in args))))(f)
     cfg.ext["strlen"] = _strlen
     cfg.ext["memcmp"] = _memcmp
     cfg.ext["terminate"] = lambda em, node, recv, args: "XC_THROW()"
@@ -185,6 +216,8 @@ def default_config():
     cfg.ext["move"] = lambda em, node, recv, args: em.expr(args[0])
     cfg.ext["forward"] = lambda em, node, recv, args: em.expr(args[0])
     cfg.type_handlers.append(_std_array)
+    cfg.type_map["std::char_traits<char>::char_type"] = "char"
+    cfg.type_map["std::char_traits<char>::int_type"] = "int"
     cfg.type_handlers.append(_atomic_type)
     cfg.ctor_ext["std::atomic"] = lambda em, node, args: (em.expr(args[0]) if args else "0")
     for n in ("std::string", "std::basic_string<char>", "std::basic_string", "std::__cxx11::basic_string"):
